@@ -67,6 +67,20 @@ type Attr struct {
 type View struct {
 	Name   string   `json:"name"`
 	Fields []string `json:"fields"`
+	// Overrides gives, per attribute of nested result type, the view it is rendered
+	// with inside THIS view (it wins over the view set on the attribute itself).
+	Overrides map[string]string `json:"overrides,omitempty"`
+}
+
+// NestedView returns the view a nested result-type attribute is rendered with
+// when its parent is rendered with view v.
+func (v *View) NestedView(f *Attr) string {
+	if v != nil {
+		if o, ok := v.Overrides[f.Name]; ok {
+			return o
+		}
+	}
+	return f.View
 }
 
 // UserType is a named type (Type) or result type (ResultType with views).
